@@ -461,12 +461,19 @@ def _merge_masks(
     idx_values.sort()
 
     indices_dtype = choose_int_dtype((0, max(n_indices, n_genes)))
+
+    # an array with no stored entries cannot be chunked by hand
+    if n_indices > 0:
+        data_chunks = (min(n_indices, 1000000),)
+    else:
+        data_chunks = None
+
     with h5py.File(dst_path, 'a') as dst:
         dst_indices = dst.create_dataset(
             'indices',
             shape=(n_indices,),
             dtype=indices_dtype,
-            chunks=(min(n_indices, 1000000),),
+            chunks=data_chunks,
             compression=compression,
             compression_opts=compression_opts)
 
@@ -474,7 +481,7 @@ def _merge_masks(
             'data',
             shape=(n_indices,),
             dtype=data_dtype,
-            chunks=(min(n_indices, 1000000),),
+            chunks=data_chunks,
             compression=compression,
             compression_opts=compression_opts)
 
